@@ -163,11 +163,18 @@ Proof. intros k H. destruct k; vm_compute in H; try discriminate H; vm_compute; 
 
 (* first token is an identifier or ( *)
 Definition head_idlp (kvs: list (kind * str)) : Prop :=
-  exists k v rest, kvs = (k, v) :: rest /\ unary_pass k = true.
+  exists k v rest, kvs = (k, v) :: rest /\ unary_pass k = true /\
+    (kind_eqb k K_LPAREN = true -> exists k2 v2 rest2, rest = (k2, v2) :: rest2 /\ kind_in k2 tbl_DECL_START = false).
 Lemma head_idlp_app : forall x y, head_idlp x -> head_idlp (x ++ y).
-Proof. intros x y [k [v [rest [-> H]]]]. exists k, v, (rest ++ y). split; [reflexivity|exact H]. Qed.
-Lemma head_idlp_parkv : forall x, head_idlp (parkv x).
-Proof. intros x. unfold parkv. eexists. eexists. eexists. split; [reflexivity|reflexivity]. Qed.
+Proof.
+  intros x y [k [v [rest [-> [H H3]]]]]. exists k, v, (rest ++ y). split; [reflexivity|]. split; [exact H|].
+  intros Hl. destruct (H3 Hl) as [k2 [v2 [rest2 [-> H4]]]]. exists k2, v2, (rest2 ++ y). split; [reflexivity|exact H4].
+Qed.
+Lemma head_idlp_parkv : forall x, first_ok x -> head_idlp (parkv x).
+Proof.
+  intros x [k [v [rest [-> [H1 _]]]]]. unfold parkv. eexists. eexists. eexists. split; [reflexivity|]. split; [reflexivity|]. intros _.
+  exists k, v, (rest ++ [(K_RPAREN, s2l ")")]). split; [reflexivity|exact (proj1 (startk_facts _ H1))].
+Qed.
 
 Section PX.
 Variable P : Type.
@@ -358,7 +365,7 @@ Qed.
 (* a chain is a cast-expression once a quiet token follows *)
 Lemma chain_cast : forall kvs X, first_ok kvs -> head_idlp kvs -> R kvs X -> CastS kvs X.
 Proof.
-  intros kvs X [k [v [rest0 [Ek [Hds [_ Hlp]]]]]] [k' [v' [rest' [Ek' Hhd]]]] HR s la n l HS HU Hq.
+  intros kvs X [k [v [rest0 [Ek [Hds _]]]]] [k' [v' [rest' [Ek' [Hhd Hlp]]]]] HR s la n l HS HU Hq.
   rewrite Ek in Ek'. injection Ek' as <- <- <-.
   pose proof HS as HS0. rewrite Ek in HS. destruct (RoundTrip.Spell_cons_inv P _ _ _ _ HS) as [x1 [tl [-> [Hk1 [_ HStl]]]]]. cbn [app] in HU.
   assert (Hpass: unary_pass (tk x1) = true) by (rewrite Hk1; exact Hhd).
@@ -366,7 +373,7 @@ Proof.
   assert (Htp: forall s0, Up s0 (x1 :: tl ++ n :: l) -> exists s1, (forall f, try_paren_type_name P (S f) s0 = Ok (None, s1)) /\ Up s1 (x1 :: tl ++ n :: l) /\ idx P s1 = idx P s0 /\ N.to_nat (ticks P s1) <= N.to_nat (ticks P s0) + 1).
   { intros s0 HU0. destruct (kind_eqb k K_LPAREN) eqn:El.
     2: { destruct (tptn_no_paren_c P s0 x1 _ HU0) as [sa [Ha [HUa HSa]]]; [rewrite Hk1; exact El|]. exists sa. split; [exact Ha|split; [exact HUa|cost_tac]]. }
-    - destruct (Hlp eq_refl) as [k2 [v2 [rest2 [-> [_ Hd2]]]]].
+    - destruct (Hlp eq_refl) as [k2 [v2 [rest2 [-> Hd2]]]].
       destruct (RoundTrip.Spell_cons_inv P _ _ _ _ HStl) as [x2 [tl2 [-> [Hk2 [_ _]]]]]. cbn [app] in HU0 |- *.
       destruct (tptn_not_type_c P s0 x1 x2 _ HU0) as [sa [Ha [HUa [Hia Hta]]]]; [rewrite Hk1; exact El|rewrite Hk2; exact Hd2|].
       exists sa. split; [exact Ha|split; [exact HUa|split; [exact Hia|rewrite Hta; lia]]]. }
@@ -572,7 +579,7 @@ Proof. intros k H. destruct k; vm_compute in H; try discriminate H; vm_compute; 
 
 Lemma chain_unary : forall kvs X, first_ok kvs -> head_idlp kvs -> R kvs X -> UnaryS kvs X.
 Proof.
-  intros kvs X [k [v [rest0 [Ek [Hds [_ Hlp]]]]]] [k' [v' [rest' [Ek' Hhd]]]] HR s la n l HS HU Hq.
+  intros kvs X [k [v [rest0 [Ek [Hds _]]]]] [k' [v' [rest' [Ek' [Hhd Hlp]]]]] HR s la n l HS HU Hq.
   rewrite Ek in Ek'. injection Ek' as <- <- <-.
   pose proof HS as HS0. rewrite Ek in HS. destruct (RoundTrip.Spell_cons_inv P _ _ _ _ HS) as [x1 [tl [-> [Hk1 [_ HStl]]]]]. cbn [app] in HU.
   assert (Hpass: unary_pass (tk x1) = true) by (rewrite Hk1; exact Hhd).
@@ -580,7 +587,7 @@ Proof.
   assert (Htp: exists s3, (forall f, try_paren_type_name P (S f) s2 = Ok (None, s3)) /\ Up s3 (x1 :: tl ++ n :: l) /\ idx P s3 = idx P s2 /\ N.to_nat (ticks P s3) <= N.to_nat (ticks P s2) + 1).
   { destruct (kind_eqb k K_LPAREN) eqn:El.
     2: { destruct (tptn_no_paren_c P s2 x1 _ HU2) as [sa [Ha [HUa HSa]]]; [rewrite Hk1; exact El|]. exists sa. split; [exact Ha|split; [exact HUa|cost_tac]]. }
-    destruct (Hlp eq_refl) as [k2 [v2 [rest2 [-> [_ Hd2]]]]].
+    destruct (Hlp eq_refl) as [k2 [v2 [rest2 [-> Hd2]]]].
     destruct (RoundTrip.Spell_cons_inv P _ _ _ _ HStl) as [x2 [tl2 [-> [Hk2 [_ _]]]]]. cbn [app] in HU2 |- *.
     destruct (tptn_not_type_c P s2 x1 x2 _ HU2) as [sa [Ha [HUa [Hia Hta]]]]; [rewrite Hk1; exact El|rewrite Hk2; exact Hd2|].
     exists sa. split; [exact Ha|split; [exact HUa|split; [exact Hia|rewrite Hta; lia]]]. }
@@ -648,13 +655,13 @@ Proof.
   destruct (advance_up P s2 t _ HU2) as [s3 [H3 [HU3 HC3]]].
   (* ( x ... : not a type name *)
   pose proof HS' as HS0. unfold parkv in HS'. destruct (RoundTrip.Spell_cons_inv P _ _ _ _ HS') as [lp [l2 [-> [Hlp [_ HS2]]]]].
-  destruct Hfo as [k [v [rest [Ek [Hsk Hrest]]]]]. pose proof HS2 as HS2'. rewrite Ek in HS2'. cbn [app] in HS2'.
+  pose proof Hfo as Hfo0. destruct Hfo as [k [v [rest [Ek [Hsk Hrest]]]]]. pose proof HS2 as HS2'. rewrite Ek in HS2'. cbn [app] in HS2'.
   destruct (RoundTrip.Spell_cons_inv P _ _ _ _ HS2') as [x [l3 [-> [Hx [_ _]]]]]. cbn [app] in HU3.
   assert (Hlpk: kind_eqb (tk lp) K_LPAREN = true) by (rewrite Hlp; reflexivity).
   assert (Hxd: kind_in (tk x) tbl_DECL_START = false) by (rewrite Hx; exact (proj1 (startk_facts _ Hsk))).
   destruct (tptn_not_type_c P s3 lp x _ HU3 Hlpk Hxd) as [s4 [H4 [HU4 HC4]]].
   assert (HfoP: first_ok (parkv kx)) by (apply first_ok_parkv; exists k, v, rest; split; [exact Ek|split; [exact Hsk|exact Hrest]]).
-  destruct (chain_unary (parkv kx) X HfoP (head_idlp_parkv kx) (R_paren kx X HE) s4 (lp :: x :: l3) n l HS0 HU4 Hq) as [f0 [N [s5 [H5 [HU5 [HN HL5]]]]]].
+  destruct (chain_unary (parkv kx) X HfoP (head_idlp_parkv kx Hfo0) (R_paren kx X HE) s4 (lp :: x :: l3) n l HS0 HU4 Hq) as [f0 [N [s5 [H5 [HU5 [HN HL5]]]]]].
   exists (S (S (S f0))), (mkN P C_UnaryOp [VStr (tv t); N] (Some (mkCoord P (curfile P s5) (tp t)))), s5. split; [|split; [exact HU5|split; [|cost_tac]]].
   - intros f Hf. destruct f as [|[|[|f]]]; try lia. rewrite (cast_eq P). unfold bind at 1. rewrite H1.
     rewrite (unary_eq P). unfold bind at 1. rewrite H2. rewrite Hk.
@@ -705,7 +712,7 @@ Proof.
   intros e HT. unfold RoundTripX.opnd, wrap. destruct (simple e); [exact (proj1 HT)|apply first_ok_parkv; exact (T_first_argt e HT)].
 Qed.
 Lemma T_head_opnd : forall e, T e -> head_idlp (opnd e).
-Proof. intros e (_ & Hs & _). unfold RoundTripX.opnd, wrap. destruct (simple e); [exact (proj1 (Hs eq_refl))|apply head_idlp_parkv]. Qed.
+Proof. intros e HT. pose proof (T_first_argt e HT) as Hfa. destruct HT as (_ & Hs & _). unfold RoundTripX.opnd, wrap. destruct (simple e); [exact (proj1 (Hs eq_refl))|apply head_idlp_parkv; exact Hfa]. Qed.
 Lemma T_R_opnd : forall e, T e -> R P (opnd e) (embx e).
 Proof.
   intros e HT. pose proof (T_expr_argt e HT) as HE. destruct HT as (_ & Hs & _). unfold RoundTripX.opnd, wrap.
@@ -759,13 +766,13 @@ Proof.
   - (* identifier *)
     apply T_of_chain; try reflexivity.
     + exists K_ID, a, []. split; [reflexivity|]. split; [reflexivity|]. split; [reflexivity|]. intros H; discriminate H.
-    + exists K_ID, a, []. split; reflexivity.
+    + exists K_ID, a, []. split; [reflexivity|split; [reflexivity|intros E; discriminate E]].
     + apply R_id.
   - (* constant *)
     pose proof (const_ok_kind _ _ _ Hw) as Hkk. destruct (const_kind_facts _ Hkk) as (HnoID & Hsk & Hlb & Hlp).
     apply T_of_chain; try reflexivity; cbn [RoundTripX.xt embx].
     + exists k, v, []. split; [reflexivity|]. split; [exact Hsk|]. split; [exact Hlb|]. intros E; congruence.
-    + exists k, v, []. split; [reflexivity|]. clear -Hkk. destruct k; vm_compute in Hkk; try discriminate Hkk; reflexivity.
+    + exists k, v, []. split; [reflexivity|]. split; [clear -Hkk; destruct k; vm_compute in Hkk; try discriminate Hkk; reflexivity|intros E; congruence].
     + apply R_const. exact Hw.
   - (* binary operator: the maximal operator tree, its leaves are smaller expressions *)
     set (e := XBin o l r) in *.
